@@ -188,9 +188,11 @@ func c05Header(st *types.Stat) []byte {
 type digester interface{ Digest() digest.Digest }
 
 // input: (differ mode order ((stat content)...)A ((stat content)...)B)
-//   mode 0 = fresh (destination walked), 1 = merge (empty destination walker)
-//   order 0 = contents served as soon as requested; k>0 = all contents held back until the
-//   diff is done, then completed one by one in the k-th pseudo-random order
+//
+//	mode 0 = fresh (destination walked), 1 = merge (empty destination walker)
+//	order 0 = contents served as soon as requested; k>0 = all contents held back until the
+//	diff is done, then completed one by one in the k-th pseudo-random order
+//
 // output: (walkedA reqs notifs final err)
 func runRecvAbs(in Sx) (out Sx) {
 	type res struct{ v Sx }
